@@ -53,9 +53,12 @@ func execAbsoluteLocationPathWithRelative(context *exprContext, expr *grammar.Gr
 	return execChildren(context, expr)
 }
 
+// execStep evaluates one location step. The axis, node test and predicates are
+// applied to each context node separately, so that predicates see the
+// proximity positions and the context size of that node's own candidates, and
+// the selections are then merged into one node-set.
 func execStep(context *exprContext, expr *grammar.Grammar) error {
 	var nextBsr *bsr.BSR
-	context.principal = principalElement
 
 	for _, cn := range expr.BSR.GetAllNTChildren() {
 		for _, c := range cn {
@@ -63,6 +66,8 @@ func execStep(context *exprContext, expr *grammar.Grammar) error {
 			break
 		}
 	}
+
+	childAxis := false
 
 	switch nextBsr.Label.Slot().NT {
 	case symbols.NT_NodeTest,
@@ -80,16 +85,54 @@ func execStep(context *exprContext, expr *grammar.Grammar) error {
 		symbols.NT_NameTestQNameNamespaceWithLocalReservedNameConflictBoth,
 		symbols.NT_NameTestQNameLocalOnly,
 		symbols.NT_NameTestQNameLocalOnlyReservedNameConflict:
-		nodeSet, ok := context.result.(NodeSet)
+		childAxis = true
+	case symbols.NT_FunctionCall:
+		// A function call as a step is called once, with the whole node-set
+		// as its context.
+		return execContext(context, expr.Next(nextBsr))
+	}
+
+	nodeSet, ok := context.result.(NodeSet)
+
+	if !ok {
+		return errQueryNonNodeset
+	}
+
+	nextExpr := expr.Next(nextBsr)
+	result := make(NodeSet, 0)
+	reverse := false
+
+	for _, i := range nodeSet {
+		stepContext := context.copy()
+		stepContext.principal = principalElement
+		stepContext.reverseAxis = false
+		stepContext.result = NodeSet{i}
+
+		if childAxis {
+			stepContext.result = selectChild(NodeSet{i})
+		}
+
+		if err := execContext(&stepContext, nextExpr); err != nil {
+			return err
+		}
+
+		selected, ok := stepContext.result.(NodeSet)
 
 		if !ok {
 			return errQueryNonNodeset
 		}
 
-		context.result = selectChild(nodeSet)
+		result = append(result, selected...)
+		reverse = reverse || stepContext.reverseAxis
 	}
 
-	return execContext(context, expr.Next(nextBsr))
+	if reverse {
+		context.result = cleanupBackwardAxis(result)
+	} else {
+		context.result = cleanupForwardAxis(result)
+	}
+
+	return nil
 }
 
 func execPredicate(context *exprContext, expr *grammar.Grammar) error {
@@ -422,6 +465,7 @@ func execAxisName(context *exprContext, expr *grammar.Grammar) error {
 	axis := expr.GetString()
 	var result Result
 	context.principal = principalElement
+	context.reverseAxis = axis == "ancestor" || axis == "ancestor-or-self" || axis == "preceding" || axis == "preceding-sibling"
 
 	switch axis {
 	case "child":
